@@ -329,12 +329,35 @@ def step1 (w : W) (op impl : String) : W × String × Verdict :=
         let head := s.chain.getLast?.getD default
         let same := implRes == "ok" && b.txns.map (·.hash) == txns.map (·.hash) && b.fee == fee && b.seq == head.seq + 1
           && b.time == when_ && b.prev == head.hh && b.uxh == hex16 s.xor && b.body == b.cb && b.sig
+        -- C05 conflict rule on the node's own block: of two conflicting candidates exactly the earlier one
+        -- (fee/kB desc, hash asc) is included.  Known exception (finding F36): the earlier one was itself
+        -- dropped because it conflicts with a still earlier candidate - then BOTH are left out.
+        let cand : List Txn :=
+          let filtered := poolTxns.filter fun t => match verifySingleSoftHard s t s.cfg.create with | .ok _ => true | .error _ => false
+          match sortTransactions s filtered with
+          | .ok sorted => (truncateBytesTo sorted s.cfg.maxBlock).take 65535
+          | .error _ => []
+        let inBlock (t : Txn) : Bool := b.txns.any (·.hash == t.hash)
+        let rec pairs (l : List Txn) (earlier : List Txn) : List String :=
+          match l with
+          | [] => []
+          | a :: rest =>
+            let bad := rest.filterMap fun c =>
+              if sharesInput a c then
+                if inBlock a && !inBlock c then none
+                else if earlier.any (fun x => sharesInput x a) then some "C05[conflict-chain]"
+                else some "C05[conflict-winner]"
+              else none
+            bad ++ pairs rest (earlier ++ [a])
+        let conflictTags := (pairs cand []).eraseDups
         -- C05 predicates on the node's own block: size limit, every transaction individually valid
         let sizeSum := b.txns.foldl (fun a t => a + t.size.getD 0) 0
         let bad := b.txns.any fun t => match verifySingleSoftHard s t s.cfg.create with | .ok _ => false | .error _ => true
         let w' := { w with made := some (b.hh, head.hh) }
-        if same && sizeSum ≤ s.cfg.maxBlock && !bad then (w', impl, .hold)
-        else (w', " ".intercalate before ++ " Rok txns=" ++ "+".intercalate (txns.map (·.hash)) ++ s!" fee={fee} size={sizeSum} #props:C05", .fail)
+        if same && sizeSum ≤ s.cfg.maxBlock && !bad && conflictTags.isEmpty then (w', impl, .hold)
+        else if same && sizeSum ≤ s.cfg.maxBlock && !bad then
+          (w', impl ++ " #props:" ++ ",".intercalate conflictTags, .fail)
+        else (w', " ".intercalate before ++ " Rok txns=" ++ "+".intercalate (txns.map (·.hash)) ++ s!" fee={fee} size={sizeSum} #props:C05" ++ (if conflictTags.isEmpty then "" else "," ++ ",".intercalate conflictTags), .fail)
     else (w, "bad-op", .unknown)
   | _ => (w, "bad-op", .unknown)
 
